@@ -16,6 +16,7 @@ FAULT_CLASSES = [
     "wrong-type-definition", "wrong-dimension-term", "term-defines-no-unit",
     "derive-wrong-units", "derive-wrong-count", "derive-on-base-type",
     "bad-definition-object", "quantum-without-ref",
+    "derived-type-taken-symbol",
 ]
 
 
@@ -23,7 +24,10 @@ class Fault:
     """An invalid declaration attempt: steps + the symbols / type variable it
     tries to introduce."""
 
-    def __init__(self, cls, steps_fn, new_syms=(), new_type=None, desc=""):
+    def __init__(self, cls, steps_fn, new_syms=(), new_type=None, desc="",
+                 followup=None):
+        self.followup = followup    # a valid declaration that must still
+        #                             be possible after the rejection
         self.cls = cls
         self.steps_fn = steps_fn
         self.new_syms = list(new_syms)
@@ -86,6 +90,32 @@ def make_fault(rng, w: World, cls, fresh):
             return None
         return Fault(cls, lambda k: [{"k": k, "e": e}],
                      desc="%s.new_unit(%r) again" % (t.name, sym))
+    if cls == "derived-type-taken-symbol":
+        # a derived type of a free dimension whose explicit reference-unit
+        # symbol is taken; the same dimension must stay available
+        if len(with_ref) < 1 or not w.units:
+            return None
+        for _ in range(20):
+            items = [(rng.choice(with_ref).name, rng.choice([1, 2, -1, 3]))
+                     for _ in range(rng.choice([1, 2, 2]))]
+            red = reduce_typedef(items)
+            if not red:
+                continue
+            dim = w.expand_dim(red)
+            if not dim or w.type_by_dim(dim) is not None:
+                continue
+            sym = rng.choice(list(w.units))
+            name = fresh("T")
+            kw = {"define_as": ["term", [[V(n), e] for n, e in items]],
+                  "ref_unit_symbol": ["s", sym]}
+            follow = Decl("derived", name=fresh("T"), items=items,
+                          ref=fresh("s"), form="term")
+            return Fault(cls, lambda k: [{"cls": {"name": name, "kw": kw},
+                                          "id": name, "k": k}],
+                         new_type=name, followup=follow,
+                         desc="class %s(define_as=%s, ref_unit_symbol=%r "
+                         "(taken))" % (name, items, sym))
+        return None
     if cls == "dup-symbol-type":
         if not w.units:
             return None
